@@ -9,7 +9,7 @@ flagged ambiguous and not asserted.
 """
 import re
 
-HEXRE = re.compile(r"^([0-9a-fA-F]{2})*$")
+HEXRE = re.compile(r"([0-9a-fA-F]{2})*")
 AMB = "AMB"
 
 V5_COMMANDS = ["version", "sign", "getPubKey", "advanceBlockchain", "resetAdvanceBlockchain",
@@ -35,16 +35,16 @@ DOCUMENTED_V1 = {0, -2, -666}
 
 
 def is_hex(s):
-    return type(s) is str and HEXRE.match(s) is not None
+    return type(s) is str and HEXRE.fullmatch(s) is not None
 
 
 def key_ok(k):
     if type(k) is not str:
         return False
-    if re.match(r"^m((/[0-9]+'?){5})$", k):
+    if re.fullmatch(r"m((/[0-9]+'?){5})", k):
         return all(int(e.rstrip("'")) < 2 ** 31 for e in k[2:].split("/"))
     # decimal digits outside ASCII: docs say nothing
-    if re.match(r"^m((/\d+'?){5})$", k):
+    if re.fullmatch(r"m((/\d+'?){5})", k):
         return AMB
     return False
 
